@@ -125,6 +125,19 @@ func genOps(rt *rapid.T, maxOps int, allowBig bool) []c24Op {
 	return ops
 }
 
+// genStorm draws 4..16 sessions that each end with Done after 0..2 rounds.
+func genStorm(rt *rapid.T) []c24Op {
+	n := rapid.IntRange(4, 16).Draw(rt, "storm_sessions")
+	var ops []c24Op
+	for i := 0; i < n; i++ {
+		for r := rapid.IntRange(0, 2).Draw(rt, "storm_rounds"); r > 0; r-- {
+			ops = append(ops, c24Op{Kind: "ids", Blocking: rapid.Bool().Draw(rt, "blocking"), N: rapid.IntRange(1, 5).Draw(rt, "n"), K: rapid.IntRange(0, 5).Draw(rt, "k")})
+		}
+		ops = append(ops, c24Op{Kind: "ids", Blocking: true, N: rapid.IntRange(1, 5).Draw(rt, "n"), K: -1})
+	}
+	return append(ops, c24Op{Kind: "ids", Blocking: false, N: 1, K: 1})
+}
+
 // ---- model ---------------------------------------------------------------------------
 
 // window is the reference model of one protocol session: ids the outbound
@@ -1059,7 +1072,16 @@ func TestC24(t *testing.T) {
 			ops = genWireOps(rt, 6)
 		} else {
 			allowBig := rapid.IntRange(0, rec.Pick(11, 5)).Draw(rt, "allow_big") == 0
-			ops = genOps(rt, maxOps, allowBig)
+			if rapid.IntRange(0, 5).Draw(rt, "restart_storm") == 0 {
+				// many short sessions on one connection: every Done restarts the
+				// server's protocol instance
+				ops = genStorm(rt)
+				x.settle = time.Duration(rapid.SampledFrom([]int{0, 0, 20, 200}).Draw(rt, "storm_settle_us")) * time.Microsecond
+				x.cs["settle"] = x.settle.String()
+				rec.Class("restart_storm_" + fam)
+			} else {
+				ops = genOps(rt, maxOps, allowBig)
+			}
 		}
 		x.cs["ops"] = ops
 		desc := fam + ": " + opsDesc(ops)
